@@ -667,4 +667,30 @@ theorem keysNodup_insert (c : List Entry) (e : Entry) (hn : KeysNodup c)
   simp only [beq_iff_eq] at this
   exact this hxk
 
+/-! ## Constant padding: the two modes agree when the first instance has the
+constant's own width -/
+
+theorem getD_take (v : List Bool) (own b : Nat) :
+    (v.take own).getD b false = if b < own then v.getD b false else false := by
+  simp only [List.getD_eq_getElem?_getD, List.getElem?_take]
+  split <;> simp
+
+theorem pad_agree (v : List Bool) (own bits : Nat) (signed : Bool) (h1 : 0 < own) (h2 : own ≤ v.length)
+    (h3 : own ≤ bits) :
+    padFromFirst (v.take own) signed bits = padFromOwn v own signed bits := by
+  unfold padFromFirst padFromOwn
+  apply List.map_congr_left
+  intro b _
+  have hlen : (v.take own).length = own := by simp [List.length_take]; omega
+  have hmin : min own bits = own := by omega
+  simp only [hlen, hmin, getD_take]
+  by_cases hb : b < own
+  · have : ¬ own ≤ b := by omega
+    simp [hb, this]
+  · have hge : own ≤ b := by omega
+    cases signed
+    · simp [hb, hge]
+    · have : own - 1 < own := by omega
+      simp [hb, hge, h1, this]
+
 end Mpc.Gc
